@@ -6,6 +6,7 @@ import (
 	"fmt"
 	"os"
 	"path/filepath"
+	"strings"
 	"sort"
 	"syscall"
 	"testing"
@@ -62,13 +63,22 @@ func newRealKEK() (tink.AEAD, *keyset.Handle) {
 // the version returned must be the model's next number.
 func probeCounters(dir string, data []byte, key tink.AEAD, m model.KV) string {
 	cp := filepath.Join(dir, "probe")
-	if err := os.WriteFile(cp, data, 0o600); err != nil {
+	// the copy is what a restored backup or a checked-out file looks like: loosely permissioned
+	if err := os.WriteFile(cp, data, 0o644); err != nil {
 		return "harness: " + err.Error()
 	}
+	os.Chmod(cp, []os.FileMode{0o644, 0o666, 0o640, 0o600}[len(data)%4])
 	defer os.Remove(cp)
+	before, err := statFile(cp)
+	if err != nil {
+		return "harness: " + err.Error()
+	}
 	d, err := dbx.OpenDiscard(cp, key)
 	if err != nil {
 		return "open of copy failed: " + err.Error()
+	}
+	if after, err := statFile(cp); err != nil || !before.same(after) {
+		return fmt.Sprintf("OPEN-MODIFIED opening a copy of the file (mode %o) changed it (inode %d->%d size %d->%d bytes-equal=%v) err=%v", []os.FileMode{0o644, 0o666, 0o640, 0o600}[len(data)%4], before.ino, after.ino, before.size, after.size, bytes.Equal(before.data, after.data), err)
 	}
 	su := dbx.Super()
 	for _, n := range m.Names() {
@@ -85,6 +95,7 @@ type RestartCase struct {
 	Ops      []dbx.Op `json:"ops"`
 	RealKEK  bool     `json:"real_kek"`
 	FailSave []int    `json:"fail_save"` // indices of calls during which the database directory is renamed away, so a save fails
+	Retry    bool     `json:"retry"`     // the client repeats the identical call straight after such a failure
 }
 
 // wouldSave reports whether the (allowed) call writes the file in state m.
@@ -134,6 +145,9 @@ func checkRestart(dir, path string, key tink.AEAD, tr *dbx.Tracker, step int, op
 		return h.V("schema-v1-layout", "after step %d %s: independently decoded file is\n    %s\n  model says\n    %s", step, op, dec.Render(true), tr.M.Render(true))
 	}
 	if msg := probeCounters(dir, before.data, key, tr.M); msg != "" {
+		if strings.HasPrefix(msg, "OPEN-MODIFIED") {
+			return h.V("open-never-modifies", "after step %d %s: %s", step, op, msg)
+		}
 		return h.V("next-version-counters-survive", "after step %d %s: %s", step, op, msg)
 	}
 	return nil
@@ -195,7 +209,10 @@ func runC03(t *testing.T, rc RestartCase) (*h.Violation, h.Info) {
 			if v := checkRestart(dir, path, key, tr, i, op); v != nil {
 				return v, info
 			}
-			continue
+			if !rc.Retry {
+				continue
+			}
+			info.Class("identical-call-retried-after-failed-save")
 		}
 		want := tr.Expect(su.Rules, op, ver)
 		got := tgt.Do(su, op, ver)
@@ -230,6 +247,7 @@ var c03 = &h.Campaign[RestartCase]{
 		c := RestartCase{Ops: dbx.GenHistory(rt, 1, 25), RealKEK: rapid.IntRange(0, 3).Draw(rt, "realkek") == 0}
 		if rapid.IntRange(0, 2).Draw(rt, "withfail") == 0 {
 			c.FailSave = rapid.SliceOfN(rapid.IntRange(0, 24), 1, 3).Draw(rt, "failsave")
+			c.Retry = rapid.Bool().Draw(rt, "retry")
 		}
 		return c
 	},
@@ -257,7 +275,7 @@ func runC03Encoded(t *testing.T, ec EncodedCase) (*h.Violation, h.Info) {
 	dir := caseDir(t)
 	defer os.RemoveAll(dir)
 	path := filepath.Join(dir, "db")
-	os.WriteFile(path, data, 0o600)
+	os.WriteFile(path, data, 0o644)
 	info.NonTrivial = len(tr.M) > 0
 	for _, s := range tr.M {
 		if _, ok := s.Vers[s.Latest]; !ok {
@@ -355,7 +373,7 @@ func TestC03Fixtures(t *testing.T) {
 		}
 		dir := caseDir(t)
 		path := filepath.Join(dir, "db")
-		os.WriteFile(path, data, 0o600)
+		os.WriteFile(path, data, 0o644)
 		v := checkRestart(dir, path, key, tr, 0, dbx.Op{Kind: "fixture:" + fm.File})
 		rec.Case(fm.File, h.Info{NonTrivial: true, Classes: []string{"fixture"}}, map[string]any{"fixture": fm.File, "names": tr.M.Names()})
 		os.RemoveAll(dir)
